@@ -298,13 +298,15 @@ func regexpNext(sb *strings.Builder, sl *stringLexer, mode Mode) error {
 				return literalBracket()
 			}
 		}
+		firstMember := true // a leading '-' is an ordinary member, not a range operator
 		if c == ']' {
 			bsb.WriteByte(']')
+			firstMember = false
 			if c = sl.next(); c == '\x00' {
 				return literalBracket()
 			}
 		}
-		for {
+		for ; ; firstMember = false {
 			switch c {
 			case '\x00':
 				// Bash is inconsistent about invalid character classes
@@ -339,7 +341,7 @@ func regexpNext(sb *strings.Builder, sl *stringLexer, mode Mode) error {
 				start := sl.last()
 				end := sl.peekNext()
 				// TODO: what about overlapping ranges, like: [a--z]
-				if end != ']' && start > end && deferredErr == nil {
+				if !firstMember && end != ']' && start > end && deferredErr == nil {
 					deferredErr = &SyntaxError{msg: fmt.Sprintf("invalid range: %c-%c", start, end)}
 				}
 			case ']':
